@@ -96,24 +96,28 @@ class Model:
 
 # ------------------------------------------------------------------ a small C-standard tokenizer (reads gcc's output)
 
-_CTOK = re.compile(r'''
+def _ctok_re(ppnum_tail, digraphs):
+    return re.compile(r'''
     (?P<ws>[ \t\n\r\f\v]+)
   | (?P<str>(?:u8|u|U|L)?"(?:\\.|[^"\\\n])*")
   | (?P<chr>(?:u8|u|U|L)?'(?:\\.|[^'\\\n])+')
-  | (?P<num>\.?[0-9](?:[eEpP][+-]|[0-9A-Za-z_.$]|[^\x00-\x7f])*)
+  | (?P<num>\.?[0-9](?:[eEpP][+-]|''' + ppnum_tail + r''')*)
   | (?P<id>(?:[A-Za-z_$]|[^\x00-\x7f])(?:[A-Za-z0-9_$]|[^\x00-\x7f])*)
-  | (?P<punct>%:%:|\.\.\.|<<=|>>=|->|\+\+|--|<<|>>|<=|>=|==|!=|&&|\|\||[-+*/%&|^]=|\#\#|<:|:>|<%|%>|%:|[-\[\](){}.&*+~!/%<>^|?:;=,\#])
+  | (?P<punct>''' + digraphs + r'''\.\.\.|<<=|>>=|->|\+\+|--|<<|>>|<=|>=|==|!=|&&|\|\||[-+*/%&|^]=|\#\#|[-\[\](){}.&*+~!/%<>^|?:;=,\#])
   | (?P<other>.)
 ''', re.X | re.S)
 
 
-def ctok(text):
-    """pp-token spellings by the C11 grammar as gcc applies it (digraphs, `_`/`$` inside pp-numbers)"""
-    out = []
-    for m in _CTOK.finditer(text):
-        if m.lastgroup != 'ws':
-            out.append(m.group(0))
-    return out
+# C11 6.4 as gcc applies it: pp-numbers continue over identifier-nondigits ( _ $ extended characters ), digraphs are tokens
+_CTOK_STD = _ctok_re(r'[0-9A-Za-z_.$]|[^\x00-\x7f]', r'%:%:|<:|:>|<%|%>|%:|')
+# the same text read with chibicc's token grammar: pp-numbers continue over isalnum and '.', only; no digraphs
+_CTOK_CHIBI = _ctok_re(r'[0-9A-Za-z.]', '')
+
+
+def ctok(text, dialect='std'):
+    """pp-token spellings"""
+    rx = _CTOK_STD if dialect == 'std' else _CTOK_CHIBI
+    return [m.group(0) for m in rx.finditer(text) if m.lastgroup != 'ws']
 
 
 # ------------------------------------------------------------------ running the implementation
@@ -138,7 +142,7 @@ class Impl:
     def E(self, path, extra=()):
         """chibicc -E: (rc, output text, stderr)"""
         out = self.path('.i')
-        rc, o, e = sh([self.ctx.cc, '-E', '-xc'] + list(extra) + [path, '-o', out], timeout=120)
+        rc, o, e = sh([self.ctx.cc, '-E', '-xc'] + list(extra) + [path, '-o', out], timeout=120, cwd=self.ctx.snapshot)
         txt = ''
         if rc == 0 and os.path.exists(out):
             txt = open(out, encoding='utf-8', errors='surrogateescape', newline='').read()
@@ -146,19 +150,40 @@ class Impl:
 
     def S(self, path, extra=()):
         out = self.path('.s')
-        rc, o, e = sh([self.ctx.cc, '-S', '-xc'] + list(extra) + [path, '-o', out], timeout=300)
+        rc, o, e = sh([self.ctx.cc, '-S', '-xc'] + list(extra) + [path, '-o', out], timeout=300, cwd=self.ctx.snapshot)
         if rc != 0 or not os.path.exists(out):
             return rc or 1, '', e
         lines = [l for l in open(out, errors='replace').read().splitlines()
                  if not re.match(r'\s*\.(loc|file)\b', l)]
         return 0, '\n'.join(lines), e
 
-    def gcc_tokens(self, text):
+    def gcc_text(self, text):
+        """what gcc -E -P prints for `text` (gcc separates the tokens IT read wherever they would paste), or None"""
         p = self.write(text, '.gi')
         rc, o, e = sh(['gcc', '-E', '-P', '-undef', '-nostdinc', '-xc', '-std=gnu11', '-w', p], timeout=120)
         if rc != 0:
             return None
-        return ctok(o)
+        # gcc spells extended characters of identifiers as universal character names when it prints them
+        return re.sub(r'\\U([0-9a-fA-F]{8})|\\u([0-9a-fA-F]{4})', lambda m: chr(int(m.group(1) or m.group(2), 16)), o)
+
+
+def gcc_judge(corr, gtext, split, expected_groups):
+    """gcc as independent lexer.  gcc's reading must give the expected spellings; where it does not, the same gcc output read
+    with chibicc's token grammar (pp-numbers do not continue over _ $ or extended characters; no digraphs) must — then the
+    difference is one of token grammar, not of the printer, and is only counted.  Returns {group: got} of real mismatches."""
+    std = split(ctok(gtext, 'std'))
+    chi = None
+    bad = {}
+    for k, want in expected_groups.items():
+        if std.get(k) == want:
+            continue
+        if chi is None:
+            chi = split(ctok(gtext, 'chibi'))
+        if chi.get(k) == want:
+            corr.count('gcc-token-grammar-difference')
+        else:
+            bad[k] = std.get(k)
+    return bad
 
 
 def model_spellings(model, text):
@@ -166,7 +191,7 @@ def model_spellings(model, text):
     return None if r[0] == 'err' else [t[3] for t in r[1]]
 
 
-def check_case(ctx, model, impl, source, expect, extra=()):
+def check_case(ctx, corr, model, impl, source, expect, extra=()):
     """the property on one input: -E output re-lexes (model and gcc) to `expect` (list of spellings, or None = only
     idempotence), and a second -E pass reproduces the first byte for byte.  Returns None or a violation dict."""
     p = impl.write(source)
@@ -178,10 +203,12 @@ def check_case(ctx, model, impl, source, expect, extra=()):
         if got != expect:
             return {'what': '-E output does not re-lex (tokenize model) to the token sequence of the expansion',
                     'input': source, 'expected': expect, 'got': got, 'output': out1}
-        g = impl.gcc_tokens(out1)
-        if g is not None and g != expect:
-            return {'what': '-E output does not re-lex (gcc as lexer) to the token sequence of the expansion',
-                    'input': source, 'expected': expect, 'got': g, 'output': out1}
+        gt = impl.gcc_text(out1)
+        if gt is not None:
+            bad = gcc_judge(corr, gt, lambda sp: {0: sp}, {0: expect})
+            if bad:
+                return {'what': '-E output does not re-lex (gcc as lexer) to the token sequence of the expansion',
+                        'input': source, 'expected': expect, 'got': bad[0], 'output': out1}
     p2 = impl.write(out1, '.i.c')
     rc, out2, err = impl.E(p2)
     if rc != 0 or out2 != out1:
@@ -202,24 +229,24 @@ CHRS = ["'c'", "u'c'", "U'c'", "L'c'", "'\\''", "'\\\\'", "'ab'", "'\"'"]
 ALPHABET = PUNCT_MULTI + PUNCT_ONE + IDENTS + NUMS + STRS + CHRS
 
 TRIPLES = [['.', '.', '.'], ['<', '<', '='], ['>', '>', '='], ['<', '<='], ['-', '-', '>'], ['+', '+', '+'], ['-', '>', '='],
-           ['#', '#', '#'], ['1', '.', '5'], ['1e', '+', '5'], ['.', '.', '5'], ['.', '5', '.'], ['1', '..', '.'], ['%', ':', '%', ':'],
+           ['#', '#', '#'], ['1', '.', '5'], ['1e', '+', '5'], ['.', '.', '5'], ['.', '5', '.'], ['%', ':', '%', ':'],
            ['<', ':'], ['<', '%'], ['/', '/', 'x'], ['/', '*', 'x', '*', '/'], ['*', '/'], ['u8', '"s"', '"t"'], ['L', "'c'", 'L'],
-           ['u', '8', '"s"'], ['1', 'e', '+', '1'], ['0x1', 'p', '-', '2'], ['a', '1.', 'e', '+', 'b'], ['-', '-1'], ['&', '&', '&'],
+           ['u', '8', '"s"'], ['1', 'e', '+', '1'], ['0x1', 'p', '-', '2'], ['a', '1.', 'e', '+', 'b'], ['-', '-', '1'], ['&', '&', '&'],
            ['|', '|='], ['=', '=='], ['!', '='], ['1.', 'x'], ['1e+', '5'], ['1e-', 'x'], ['.5.', 'e'], ['x', '1', 'x'],
-           ['"a"', '"b"'], ["'a'", "'b'"], ['"a"', 'L', '"b"'], ['..', '.'] ]
+           ['"a"', '"b"'], ["'a'", "'b'"], ['"a"', 'L', '"b"']]
 
 
 def forms_for(tok, idx, position, last):
     """source renderings that put `tok` into the output juxtaposed with its neighbours:
        F  f_(tok)         function-like `#define f_(x) x`      not for ( ) ,
        T  Tn_()           `#define Tn_() tok`                    not for # ##
-       O  On_             `#define On_ tok`                      only as the last element"""
+       O  On_             `#define On_ tok`                      only as the last element; not for ##"""
     fs = []
     if tok not in ('(', ')', ','):
         fs.append(('F', f'f_({tok})'))
     if tok not in ('#', '##'):
         fs.append(('T', f'T{idx}_()'))
-    if last and position > 0:
+    if last and position > 0 and tok != '##':
         fs.append(('O', f'O{idx}_'))
     return fs
 
@@ -242,7 +269,8 @@ class Juxta:
             i = self.tok_index(t)
             if t not in ('#', '##'):
                 h.append(f'#define T{i}_() {t}')
-            h.append(f'#define O{i}_ {t}')
+            if t != '##':
+                h.append(f'#define O{i}_ {t}')
         return h
 
     def render(self, toks, rng, prefer=None):
@@ -285,9 +313,9 @@ class Juxta:
                     groups[cur].append(s)
             return groups
         ms = model_spellings(self.model, out1)
-        gs = self.impl.gcc_tokens(out1)
+        gt = self.impl.gcc_text(out1)
         mg = split(ms) if ms is not None else {}
-        gg = split(gs) if gs is not None else None
+        gbad = gcc_judge(self.corr, gt, split, {k: toks for k, (toks, _) in enumerate(cases)}) if gt is not None else {}
         # model of the printer on the known flags: sentinel at_bol, first element has_space, the rest glued
         want_lines = self.model.print_tokens(
             [[(True, False, f'Z{k}_')] + [(False, i == 0, t) for i, t in enumerate(toks)] for k, (toks, _) in enumerate(cases)])
@@ -302,9 +330,9 @@ class Juxta:
                 viol.append({'what': '-E output does not re-lex (tokenize model) to the token sequence of the expansion',
                              'input': single, 'expected': toks, 'got': mg.get(k),
                              'output': out_lines[k] if k < len(out_lines) else None})
-            elif gg is not None and gg.get(k) != toks:
+            elif k in gbad:
                 viol.append({'what': '-E output does not re-lex (gcc as lexer) to the token sequence of the expansion',
-                             'input': single, 'expected': toks, 'got': gg.get(k),
+                             'input': single, 'expected': toks, 'got': gbad[k],
                              'output': out_lines[k] if k < len(out_lines) else None})
             if k < len(out_lines) and k < len(want_lines) and out_lines[k] + '\n' != want_lines[k]:
                 self.corr.disagreements.append({'kind': 'print_tokens/need_space model vs chibicc -E', 'input': single,
@@ -314,7 +342,7 @@ class Juxta:
             found = False
             for k, (toks, body) in enumerate(cases):
                 single = '\n'.join(self.header(toks) + [f'Z{k}_ {body}']) + '\n'
-                v = check_case(self.ctx, self.model, self.impl, single, None)
+                v = check_case(self.ctx, self.corr, self.model, self.impl, single, None)
                 if v:
                     viol.append(v)
                     found = True
@@ -337,6 +365,10 @@ def pairs_leg(ctx, model, impl, corr):
     if bad:
         corr.disagreements.append({'kind': 'alphabet token is not self-lexing in the model', 'tokens': bad})
         return
+    extra_toks = sorted({t for tr in TRIPLES for t in tr})
+    bad = [t for t, ok in zip(extra_toks, model.selflex(extra_toks)) if not ok]
+    if bad:
+        raise RuntimeError(f'C19 generator: chain element is not one token: {bad}')
     cases = []
     for a in ALPHABET:
         for b in ALPHABET:
@@ -475,17 +507,28 @@ def gen_program(rng, idx):
     atoms = ['a', 'b', 'c', '7', '0x1e', '1', '*q', 's.x', 'N', 'P', 'HEX', 'ONE', 'NEG(a)', 'CAT(a,)', 'CAT(,b)', 'CAT(1,2)', 'CAT(0x,1e)',
              '(a)', 'sizeof XSTR(a- -b)', 'sizeof STR(-N)', 'ID(1)', 'ID(s)DOT ID(x)', 'ID(s)ID(.)x', 'DEC(1)', '1.5 ID(>)ID(1)',
              "ID('a')", '(1e1 ID(>)1)', '(0x1e ID(+)1)', '(0x1p1 ID(>)1)', '(1. ID(>)0)']
-    unary = ['-', '+', '~', '!', 'MINUS ', 'PLUS ', 'ID(-)', 'ID(+)', 'ID(~)', 'ID(!)', '- ', 'ID(-)ID(-)', 'ID(+)ID(+)', 'ID(-)ID(+)ID(-)', '-ID(-)', 'MINUS-', 'ID(-)MINUS ']
+    unary = ['-', '+', '~', '!', 'MINUS ', 'PLUS ', 'ID(-)', 'ID(+)', 'ID(~)', 'ID(!)', '- ', 'ID(-)ID(-)', 'ID(+)ID(+)', 'ID(-)ID(+)ID(-)', '-ID(-)', 'MINUS -', 'ID(-)MINUS ']
     binary = ['+', '-', '*', '&', '|', '^', '<', '>', '<=', '>=', '==', '!=', '<<', '>>', '&&', '||']
+
+    def glue(x, y):
+        """concatenate two pieces of SOURCE text; a blank only where the source itself would otherwise mean something else
+        (two word characters, or two operator characters, meeting)"""
+        if not x or not y:
+            return x + y
+        wx = x[-1].isalnum() or x[-1] in '_$.'
+        wy = y[0].isalnum() or y[0] in '_$.'
+        if (wx and wy) or (x[-1] in '+-&*<>=|/!~^%' and y[0] in '+-&*=<>|/!~^%'):
+            return x + ' ' + y
+        return x + y
 
     def wrap_op(op):
         r = rng.random()
-        if r < 0.35:
+        if r < 0.25:
             return f' {op} '
         if r < 0.7:
             return f'ID({op})'
         if r < 0.8 and op in ('+', '-', '*', '&', '<'):
-            return {'+': ' PLUS ', '-': ' MINUS ', '*': ' STAR ', '&': ' AMP ', '<': ' LT '}[op].strip() + ' '
+            return {'+': 'PLUS', '-': 'MINUS', '*': 'STAR', '&': 'AMP', '<': 'LT'}[op] + ' '
         if r < 0.9 and len(op) == 2 and op not in ('&&', '||', '<<', '>>'):
             return f'CAT({op[0]},{op[1]})'
         return f' ID({op}) '
@@ -493,39 +536,25 @@ def gen_program(rng, idx):
     def operand(depth):
         u = ''
         for _ in range(rng.choice([0, 0, 1, 1, 2])):
-            u += rng.choice(unary)
+            u = glue(u, rng.choice(unary))
         a = rng.choice(atoms) if depth <= 0 or rng.random() < 0.6 else '(' + expr(depth - 1) + ')'
-        if rng.random() < 0.3:
+        if rng.random() < 0.5:
             a = f'ID({a})'
-        # a literal operator followed directly by a literal operand can fuse in the SOURCE (`-` `-1` is fine, `+` `+a`
-        # would be `++a`): unary operators end with `)` or a blank except the bare ones, so separate those
-        if u and u[-1] in '-+~!' and a[0] in '-+':
-            u += ' '
-        if u and u[-1].isalnum():
-            u += ' '
-        return u + a
+        return glue(u, a)
 
     def expr(depth):
         e = operand(depth)
         for _ in range(rng.randrange(0, 4)):
-            op = rng.choice(binary)
-            w = wrap_op(op)
-            nxt = operand(depth)
-            # literal operator glued to a literal operand: keep the source unambiguous
-            if w[-1] in '+-&*<>=|' and nxt[0] in '+-&*=<>|':
-                w += ' '
-            if e[-1] in '+-&*<>=|' and w[0] in '+-&*=<>|':
-                e += ' '
-            e += w + nxt
+            e = glue(glue(e, wrap_op(rng.choice(binary))), operand(depth))
         return e
 
     body = []
     for k in range(rng.randrange(4, 14)):
         body.append(f'  r += {expr(2)};')
     extra = ['  r += a SLASH STAR q;', '  r += a ID(/)ID(*)q;', '  r += ID(a)ID(-)ID(-)ID(b);', '  r += a ID(-)N;', '  r -=-N;', '  r += -N;',
-             '  r += sizeof(STR(a+ +b));', '  r += sizeof(XSTR(N P HEX));', '  r += ID(a)ID(+)ID(+)ID(+)ID(b);', '  r += a ID(<)ID(<) 1;',
+             '  r += sizeof(STR(a+ +b));', '  r += sizeof(XSTR(N P HEX));', '  r += ID(a)ID(+)ID(+)ID(+)ID(b);', '  r += a CAT(<,<) 1;', '  r += (ID(0x1e)ID(+)ID(1));', '  r += (ID(1e1)ID(-)ID(1)) > 0;',
              '  r += ID(a)ID(<)ID(-)ID(1);', '  r += a ID(&)ID(~)b;',
-             '  r += TWICE(-)a;', '  r += TWICE(+)1;', '  r += sizeof ID("a")ID("b");', '  r += sizeof ID(u8"a")"b";', '  if (ID(a)ID(>)ID(=)b) r++;',
+             '  r += TWICE(-)a;', '  r += TWICE(+)1;', '  r += sizeof ID("a")ID("b");', '  r += sizeof ID(u8"a")"b";', '  if (ID(a)CAT(>,=)ID(b)) r++;',
              '  r += APPLY(NEG, N);', '  r += EMPTY a EMPTY+EMPTY+EMPTY b;', '  r += ID(1)ID(+)ID(1);', '  r += ID(HEX)ID(+)ID(1);', '  r += ID(s)ID(.)ID(x);']
     rng.shuffle(extra)
     body += extra[:rng.randrange(3, len(extra))]
@@ -547,17 +576,17 @@ def whole_leg(ctx, model, impl, corr):
     tdir = os.path.join(snap, 'test')
     for fn in sorted(os.listdir(tdir)):
         if fn.endswith('.c'):
-            files.append((os.path.join(tdir, fn), ['-I' + os.path.join(snap, 'include'), '-I' + tdir], 'test/' + fn))
+            files.append(('test/' + fn, ['-Iinclude', '-Itest'], 'test/' + fn))       # as the Makefile does, from the tree's root
     for fn in sorted(os.listdir(snap)):
         if fn.endswith('.c'):
-            files.append((os.path.join(snap, fn), [], fn))
+            files.append((fn, [], fn))
     ngen = 40 if not ctx.thorough else 600
     for i in range(ngen):
         p = impl.write(gen_program(rng, i), f'.gen{i}.c')
         files.append((p, [], f'generated#{i}'))
     skipped = []
     for path, inc, name in files:
-        src = open(path, encoding='utf-8', errors='surrogateescape').read()
+        src = open(os.path.join(snap, path), encoding='utf-8', errors='surrogateescape').read()
         timey = bool(re.search(r'__TIME__|__DATE__', src))
         for attempt in range(4):
             rc0, s_a, e0 = impl.S(path, inc)
@@ -597,9 +626,11 @@ def whole_leg(ctx, model, impl, corr):
                                        'model': (r[1] if r[0] == 'err' else first_diff(out1, r[1]))})
             return
         ms = model_spellings(model, out1)
-        gs = impl.gcc_tokens(out1)
-        if gs is not None and '\\' not in [t for t in ms if len(t) == 1]:
-            if gs != ms:
+        gt = impl.gcc_text(out1)
+        if gt is not None and '\\' not in [t for t in ms if len(t) == 1]:
+            bad = gcc_judge(corr, gt, lambda sp: {0: sp}, {0: ms})
+            if bad:
+                gs = bad[0]
                 i = next((i for i, (x, y) in enumerate(zip(ms, gs)) if x != y), min(len(ms), len(gs)))
                 corr.violations.append({'what': 'gcc reads a different token sequence from the -E output than chibicc\'s tokenizer',
                                         'input': name if not name.startswith('generated') else src,
@@ -633,7 +664,7 @@ def corpus_leg(ctx, model, impl, corr):
         corr.evaluations += 1
         corr.count('corpus')
         corr.nontrivial.add(key('corpus', fn))
-        v = check_case(ctx, model, impl, c['source'], c.get('expect'))
+        v = check_case(ctx, corr, model, impl, c['source'], c.get('expect'))
         if v:
             v['corpus'] = fn
             corr.violations.append(v)
@@ -683,7 +714,8 @@ def search(ctx, broken, corr):
             p = impl.write(src)
             rc, out, err = impl.E(p)
             if rc == 0:
-                g = impl.gcc_tokens(out)
+                gt = impl.gcc_text(out)
+                g = ctok(gt, 'chibi') if gt is not None else None
                 if g is not None and g != ['Z'] + toks:
                     return {'what': '-E output does not re-lex (gcc as lexer) to the token sequence of the expansion', 'input': src,
                             'expected': toks, 'got': g[1:], 'output': out}
@@ -714,7 +746,7 @@ def replay(ctx, corr, path):
         m = re.search(r'^(Z\d+_) ', src, re.M)
         if m:
             exp = [m.group(1)] + exp
-    v = check_case(ctx, model, impl, src, exp)
+    v = check_case(ctx, corr, model, impl, src, exp)
     print('replay:', v['what'] if v else 'input now satisfies the property')
     if v:
         corr.violations.append(v)
